@@ -1,7 +1,7 @@
 """E2: generator of Transactron designs (public API only) with an oracle computed from the spec alone.
 
 A spec is a JSON-able dict:
-  methods:      [ {name, nonexcl, iw, ow, ready_free, validate: None|'nz'|'bit0', combiner: None|'or'|'sum', body: [stmt],
+  methods:      [ {name, nonexcl, iw, ow, ready_free, validate: None|'nz'|'bit0', combiner: None|'or'|'sum'|'sumcnt', body: [stmt],
                    single_caller: bool, nested_in: None | [ti, under_if]} ]
   transactions: [ {name, body: [stmt], nested: [ {name, body: [stmt], under_if: bool} ]} ]
   groups:       [ ['plain', [ti...]] | ['if', [[ti..], [ti..], ...], has_else] | ['switch', [[ti..],...], has_default] | ['fsm', [[ti..], ...]] ]
@@ -82,7 +82,7 @@ def rand_spec(rng, opts=None):
         iw = rng.choice([0, 2])
         comb = None
         if nonex and iw:
-            comb = rng.choice(["or", "sum"]) if opts.get("combiner") else None
+            comb = rng.choice(["or", "sum", "sumcnt"]) if opts.get("combiner") else None
             if comb is None:
                 iw = 0
         methods.append(dict(name=f"L{i}", nonexcl=nonex, iw=iw, ow=rng.choice([0, 2]), ready_free=rng.random() < 0.8,
@@ -455,6 +455,14 @@ class Design(Elaboratable):
                 acc = C(0, iw)
                 for i, a in enumerate(args):
                     acc = (acc + Mux(runs[i], a.x, 0))[:iw]
+                return {"x": acc}
+            return comb
+        if kind == "sumcnt":
+            # sum of the active arguments plus the NUMBER of active calls: differs from the bare argument also for a single call
+            def comb(m, args, runs):
+                acc = C(0, iw)
+                for i, a in enumerate(args):
+                    acc = (acc + Mux(runs[i], a.x + 1, 0))[:iw]
                 return {"x": acc}
             return comb
         return None
